@@ -5,6 +5,7 @@ from vlib import Case, log, VERIF, CACHE, FLAVOURS
 import node_chan as nc
 import search_chan as sc
 import cont_chan as cc
+import types_chan as tc
 
 
 # ----------------------------------------------------------------------------
@@ -32,10 +33,15 @@ def parse_case_file(path, prefix=""):
     return cases
 
 
+_REPLAY_SEQ = 0
+
+
 def write_replay(prop, obj):
     d = os.path.join(VERIF, "replays")
     os.makedirs(d, exist_ok=True)
-    p = os.path.join(d, "%s_%d.json" % (prop, int(time.time() * 1000) % 10 ** 10))
+    global _REPLAY_SEQ
+    _REPLAY_SEQ += 1
+    p = os.path.join(d, "%s_%d_%d.json" % (prop, int(time.time() * 1000) % 10 ** 10, _REPLAY_SEQ))
     obj = dict(obj)
     obj["property"] = prop
     with open(p, "w") as f:
@@ -98,6 +104,11 @@ def run_check(spec, prop, tier, seed, t0):
         except OSError:
             pass
     violations = []   # (replay_path, suffix)
+    pre_err = spec.pre(prop)
+    if pre_err:
+        rp = write_replay(prop, dict(kind="translator-error", error=pre_err,
+                                     broken="the translator could not regenerate the model from /repo's source"))
+        violations.append((rp, "no-failing-input-found"))
     # ---- proof stage
     pr = vlib.proof_stage(prop)
     log("[%s] proof stage: %d/%d discharged %s" % (prop, pr["discharged"], pr["obligations"], "" if pr["ok"] else pr["log"][-1500:]))
@@ -167,6 +178,10 @@ class CaseSpec:
         self.known_lines = []
 
     def env(self):
+        return None
+
+    def pre(self, prop):
+        """runs before the proof stage (translators); returns an error string or None"""
         return None
 
     def assumptions(self):
@@ -628,5 +643,69 @@ class C13(ContSpec):
         return cc.oracle_untrusted(case, obs)
 
 
-REGISTRY = {"C11": C11, "C12": C12, "C13": C13, "C18": C18, "C01": C01, "C02": C02, "C03": C03, "C04": C04, "C05": C05, "C06": C06, "C07": C07, "C08": C08,
+# ----------------------------------------------------------------------------
+# C16: auto traits — translator + theorem over regenerated declarations + rustc's own truth table
+# ----------------------------------------------------------------------------
+class C16(CaseSpec):
+    def pre(self, prop):
+        try:
+            txt, self.summary = tc.rs2coq_types.translate(vlib.REPO)
+        except Exception as e:   # ParseError and anything else: the tie is broken
+            self.summary = None
+            return "rs2coq_types: %r" % (e,)
+        dest = os.path.join(vlib.COQ, "gen", "TypesGen.v")
+        os.makedirs(os.path.dirname(dest), exist_ok=True)
+        if not os.path.exists(dest) or open(dest).read() != txt:
+            open(dest, "w").write(txt)
+        return None
+
+    def assumptions(self):
+        return ["rustc's Send/Sync contract: a type that is not Send/Sync cannot be moved to / shared with another thread by safe code (the step from the "
+                "trait bits to 'no unsynchronised access' is Rust's guarantee, not proved here)",
+                "trait selection for these types depends on K, N, E only through their Send/Sync bits (4 marker payloads per parameter)",
+                "the translator tools/rs2coq_types.py and the rule table of model/AutoTraits.v are validated against rustc on 768 rows every run, not proved"]
+
+    def correspondence(self, prop, tier, rng, workdir, pr, violations):
+        t1 = time.time()
+        rows, out = tc.run_probe()
+        if rows is None:
+            rp = write_replay(prop, dict(kind="probe-does-not-compile", log=out[-4000:],
+                                         broken="the trait-table probe (incl. the generic positive obligations: sync Node/Edge/Graph<K,N,E> must be Send+Sync "
+                                                "for all K,N,E: Send+Sync) does not compile against /repo's working tree"))
+            violations.append((rp, "no-failing-input-found"))
+            return dict(evaluations=1, distinct_nontrivial=2, rule="probe failed to compile", samples=[out[-300:]])
+        mrows, mout = tc.model_table()
+        dis = []
+        if mrows is None:
+            dis = [("model table could not be evaluated", mout[-500:])]
+        else:
+            for k in rows:
+                if mrows.get(k) != rows[k]:
+                    dis.append((k, rows[k], mrows.get(k)))
+        bad = [(k, tc.property_row(k, v)) for k, v in sorted(rows.items()) if tc.property_row(k, v)]
+        log("[%s] trait table: %d rows from rustc, %d disagree with the model, %d violate the property, %.1fs" % (prop, len(rows), len(dis), len(bad), time.time() - t1))
+        cov = dict(evaluations=len(rows), distinct_nontrivial=len([k for k in rows if k[0].startswith("sync_")]),
+                   rule="rows = {4 flavours} x {Node, Edge, Graph} x {4 marker payload types}^3 (Send+Sync, Send-only via Cell, Sync-only via MutexGuard, neither via Rc), "
+                        "decided by rustc's trait solver in a generated probe crate compiled against /repo's working tree (plus generic positive obligations that must "
+                        "type-check) and compared with `solve` on the declarations regenerated from the source; non-trivial = rows of the sync flavours",
+                   samples=[dict(row=list(k), rustc=list(rows[k]), model=list(mrows[k]) if mrows else None) for k in sorted(rows)[200:203]],
+                   traces_validated_against_impl=len(rows) - len(dis), disagreements=len(dis), exhaustive=True,
+                   exhaustive_space="all 768 rows; the theorems quantify over all 64 (Send,Sync)-classes of (K,N,E) per flavour",
+                   translated_declarations=self.summary)
+        shown = 0
+        for k, msg in bad:
+            if shown >= 3:
+                break
+            rp = write_replay(prop, {"kind": "failing-input", "row": list(k), "rustc": list(rows[k]), "model": list(mrows[k]) if mrows else None,
+                                     "oracle": msg, "program": tc.replay_program(k)})
+            violations.append((rp, ""))
+            shown += 1
+        if dis and not bad:
+            rp = write_replay(prop, {"kind": "correspondence-broken", "first_disagreement": [str(x) for x in dis[0]], "disagreements": len(dis),
+                                     "broken": "rustc's trait table and the model's `solve` on the regenerated declarations differ"})
+            violations.append((rp, "no-failing-input-found"))
+        return cov
+
+
+REGISTRY = {"C16": C16, "C11": C11, "C12": C12, "C13": C13, "C18": C18, "C01": C01, "C02": C02, "C03": C03, "C04": C04, "C05": C05, "C06": C06, "C07": C07, "C08": C08,
             "C09": C09, "C10": C10}
